@@ -173,6 +173,7 @@ package model
 //@   ensures [members] forall k int :: 0 <= k && k < len(*result) ==> exists j int :: 0 <= j && j < len(*c) && (*result)[k].Criterion == (*c)[j] && (*result)[k].Weight == weights[(*c)[j].Id]
 //@   ensures [all_present] forall j int :: 0 <= j && j < len(*c) ==> exists k int :: 0 <= k && k < len(*result) && (*result)[k].Criterion == (*c)[j]
 //@   ensures [ascending] forall i int, j int :: 0 <= i && i < j && j < len(*result) ==> (*result)[i].Weight <= (*result)[j].Weight
+//@   ensures [distinct] distinctCriteria(*c) ==> forall i int, j int :: 0 <= i && i < j && j < len(*result) ==> (*result)[i].Id != (*result)[j].Id
 //@   loop 1 invariant [ctx] fresh(result) && len(result) == len(*c)
 //@   loop 1 invariant [filled] forall i int :: 0 <= i && i < iter ==> (*c)[i].Id in weights && result[i].Criterion == (*c)[i] && result[i].Weight == weights[(*c)[i].Id]
 
@@ -329,3 +330,9 @@ package model
 //@ func firstFreeName
 //@   property C18
 //@   ensures [name] result == (count == 0 ? name : name + itoa(count))
+
+//@ func SingleWeight
+//@   property C18 C07
+//@   nopanic
+//@   ensures [single] fresh(result.Weights) && criterion.Id in result.Weights && result.Weights[criterion.Id] == value
+//@             && forall q string :: q in result.Weights ==> q == criterion.Id
